@@ -151,6 +151,10 @@ func (meta *DefinitionMeta) UnmarshalYAML(value *yaml.Node) error {
 }
 
 func (rec *RecordDefinition) UnmarshalYAML(value *yaml.Node) error {
+	if value.Kind == yaml.SequenceNode {
+		return parseError(value, "a !record must be specified with field `fields` and optionally `computedFields`")
+	}
+
 	parsedFields := false
 	for i := 0; i < len(value.Content); i += 2 {
 		k := value.Content[i]
@@ -184,35 +188,50 @@ func (rec *RecordDefinition) UnmarshalYAML(value *yaml.Node) error {
 	return nil
 }
 
-// Reports an alias that refers to an anchor it is contained in. Expanding such
-// an alias would never terminate.
-func findRecursiveAlias(node *yaml.Node, ancestors map[*yaml.Node]bool) *yaml.Node {
+// Checks properties of the YAML document that the unmarshalers rely on: an alias
+// does not refer to an anchor it is contained in (expanding it would never
+// terminate), and a core tag that is given explicitly agrees with the kind of
+// the node (e.g. "!!seq {a: b}" is a mapping, not a sequence).
+func checkYamlDocument(node *yaml.Node, ancestors map[*yaml.Node]bool) error {
 	if node == nil {
 		return nil
 	}
 	if node.Kind == yaml.AliasNode {
 		if ancestors[node.Alias] {
-			return node
+			return parseError(node, "the alias '*%s' refers to an anchor that contains it", node.Value)
 		}
-		return findRecursiveAlias(node.Alias, ancestors)
+		return checkYamlDocument(node.Alias, ancestors)
+	}
+
+	expectedKind := node.Kind
+	switch node.Tag {
+	case "!!map":
+		expectedKind = yaml.MappingNode
+	case "!!seq":
+		expectedKind = yaml.SequenceNode
+	case "!!str", "!!int", "!!float", "!!bool", "!!null":
+		expectedKind = yaml.ScalarNode
+	}
+	if node.Kind != expectedKind {
+		return parseError(node, "the tag %s cannot be applied to this node", node.Tag)
 	}
 
 	ancestors[node] = true
 	defer delete(ancestors, node)
 	for _, child := range node.Content {
-		if found := findRecursiveAlias(child, ancestors); found != nil {
-			return found
+		if err := checkYamlDocument(child, ancestors); err != nil {
+			return err
 		}
 	}
 	return nil
 }
 
 func (ns *Namespace) UnmarshalYAML(value *yaml.Node) error {
-	if recursiveAlias := findRecursiveAlias(value, make(map[*yaml.Node]bool)); recursiveAlias != nil {
-		return parseError(recursiveAlias, "the alias '*%s' refers to an anchor that contains it", recursiveAlias.Value)
+	if err := checkYamlDocument(value, make(map[*yaml.Node]bool)); err != nil {
+		return err
 	}
 
-	if value.Tag != "!!map" {
+	if value.Tag != "!!map" || value.Kind != yaml.MappingNode {
 		return parseError(value, "expected a mapping from <typename>: <type definition>")
 	}
 
@@ -482,6 +501,10 @@ func convertPattern(pat *parser.Pattern, node NodeMeta) Pattern {
 }
 
 func (protocol *ProtocolDefinition) UnmarshalYAML(value *yaml.Node) error {
+	if value.Kind == yaml.SequenceNode {
+		return parseError(value, "a !protocol must be specified with field `sequence`")
+	}
+
 	parsedSequence := false
 	for i := 0; i < len(value.Content); i += 2 {
 		k := value.Content[i]
@@ -515,7 +538,7 @@ func (steps *ProtocolSteps) UnmarshalYAML(value *yaml.Node) error {
 }
 
 func UnmarshalFieldsOrProtocolStepsYAML[T fieldOrProtocolStep](elements *[]*T, value *yaml.Node) error {
-	if value.Tag != "!!map" {
+	if value.Tag != "!!map" || value.Kind != yaml.MappingNode {
 		return parseError(value, "expected field map")
 	}
 
@@ -850,6 +873,10 @@ func UnmarshalTypeCases(value *yaml.Node) (TypeCases, error) {
 }
 
 func UnmarshalGenericNode(value *yaml.Node) (Type, error) {
+	if value.Kind != yaml.MappingNode {
+		return nil, parseError(value, "a !generic type must be specified with fields `name` and `args`")
+	}
+
 	simpleType := &SimpleType{NodeMeta: createNodeMeta(value)}
 
 	for i := 0; i < len(value.Content); i += 2 {
@@ -921,6 +948,10 @@ func (dimension *ArrayDimension) UnmarshalYAML(value *yaml.Node) error {
 }
 
 func (enum *EnumDefinition) UnmarshalYAML(value *yaml.Node) error {
+	if value.Kind == yaml.SequenceNode {
+		return parseError(value, "an !enum or !flags must be specified with field `values` and optionally `base`")
+	}
+
 	for i := 0; i < len(value.Content); i += 2 {
 		k := value.Content[i]
 		v := value.Content[i+1]
